@@ -356,6 +356,14 @@ func (np *Pool) UnmarshalMsg(b []byte) ([]byte, error) {
 		return nil, err
 	}
 
+	// the decoded type and node map belong to the receiver: without them the pool answers HasNode/GetNode/Size from
+	// an empty map and encodes again as an empty pool
+	np.Type = d.Type
+	np.NodesMap = d.NodesMap
+	if np.NodesMap == nil {
+		np.NodesMap = make(map[string]*Node)
+	}
+
 	np.Nodes = make([]*Node, 0, len(d.NodesMap))
 	for k := range d.NodesMap {
 		n := d.NodesMap[k]
